@@ -815,6 +815,77 @@ fn run_logical(_t: &mut Tape, _cx: &mut Cx) -> Result<(), String> {
     Ok(())
 }
 
+/// A foreign implementation of `VolatileMemory` whose `get_slice` hands out *less* than what was
+/// asked (clamped to what is left) - the trait is safe to implement and its documentation says the
+/// provided methods must not rely on `get_slice(offset, count).len() == count`. Whatever the
+/// provided methods do with it (error, documented panic), they must not produce an accessor that
+/// reaches beyond the memory the implementor owns.
+struct Clamping {
+    ptr: *mut u8,
+    len: usize,
+}
+
+impl VolatileMemory for Clamping {
+    type B = ();
+    fn len(&self) -> usize {
+        self.len
+    }
+    fn get_slice(&self, offset: usize, count: usize) -> vm_memory::volatile_memory::Result<VolatileSlice<'_, ()>> {
+        if offset > self.len {
+            return Err(vm_memory::VolatileMemoryError::OutOfBounds { addr: offset });
+        }
+        let n = count.min(self.len - offset);
+        // SAFETY: [ptr+offset, +n) lies inside the memory this object owns.
+        Ok(unsafe { VolatileSlice::new(self.ptr.add(offset), n) })
+    }
+}
+
+fn clamp_one<T: Pod, X: Dummy>(c: &Clamping, off: usize, n: usize, fr: &Framed, cx: &mut Cx, _x: X) -> Result<(), String> {
+    let parent = Ext { ptr: c.ptr as usize, len: c.len };
+    let inside = |what: &str, e: Ext| -> Result<(), String> {
+        ensure!(parent.contains(&e), "{}::<{}> at offset {} of a clamping implementor of {} bytes produced an accessor covering {:x?}, the implementor owns {:x?}", what, T::NAME, off, c.len, e, parent);
+        Ok(())
+    };
+    if let Ok(Ok(r)) = no_panic(|| c.get_ref::<T>(off)) {
+        let g = r.ptr_guard();
+        inside("get_ref", Ext { ptr: g.as_ptr() as usize, len: g.len().max(T::N) })?;
+        cx.label("clamped_accessor_inside");
+    }
+    if let Ok(Ok(a)) = no_panic(|| c.get_array_ref::<T>(off, n)) {
+        let g = a.ptr_guard();
+        inside("get_array_ref", Ext { ptr: g.as_ptr() as usize, len: g.len().max(a.len() * T::N) })?;
+    }
+    // SAFETY: the reference is not used beyond taking its address.
+    if let Ok(Ok(p)) = no_panic(|| unsafe { c.aligned_as_ref::<T>(off).map(|r| r as *const T as usize) }) {
+        inside("aligned_as_ref", Ext { ptr: p, len: size_of::<T>() })?;
+    }
+    // SAFETY: as above.
+    if let Ok(Ok(p)) = no_panic(|| unsafe { c.aligned_as_mut::<T>(off).map(|r| r as *mut T as usize) }) {
+        inside("aligned_as_mut", Ext { ptr: p, len: size_of::<T>() })?;
+    }
+    if let Ok(Ok(p)) = no_panic(|| c.get_atomic_ref::<AtomicU64>(off).map(|r| r as *const AtomicU64 as usize)) {
+        inside("get_atomic_ref::<AtomicU64>", Ext { ptr: p, len: 8 })?;
+    }
+    fr.canaries_ok()
+}
+
+fn run_clamping(t: &mut Tape, cx: &mut Cx) -> Result<(), String> {
+    let len = 1 + t.idx(40);
+    let fr = Framed::new(len, t.idx(16));
+    let c = Clamping { ptr: fr.ptr(), len };
+    let sel = t.idx(NPOD);
+    // offsets around the place where a T no longer fits
+    let off = match t.below(3) {
+        0 => len - t.idx(len.min(17) + 1),
+        1 => t.idx(len + 2),
+        _ => len,
+    };
+    let n = t.idx(6);
+    note!(cx, "clamping implementor of {} bytes, element type #{}, offset {}, {} elements", len, sel, off, n);
+    cx.nt("foreign_implementor");
+    with_pod!(sel, clamp_one, &c, off, n, &fr, cx, ())
+}
+
 fn region_body(mem: &vm_memory::GuestMemoryMmap<()>, lay: &Layout, t: &mut Tape, cx: &mut Cx) -> Result<(), String> {
     let pts = lay.points();
     for _ in 0..(1 + t.idx(3)) {
@@ -915,6 +986,7 @@ pub fn property() -> Property {
             SubCheck { name: "guard_page", builds: &[Build::Std, Build::Plain], kind: Kind::Random { quick: 20_000, thorough: 1_000_000, max_words: 64 }, run: run_guard },
             SubCheck { name: "region", builds: &[Build::Std, Build::Xen], kind: Kind::Random { quick: 10_000, thorough: 400_000, max_words: 96 }, run: run_region },
             SubCheck { name: "xen_region", builds: &[Build::Xen], kind: Kind::Random { quick: 4_000, thorough: 200_000, max_words: 96 }, run: run_region_xen },
+            SubCheck { name: "clamping_implementor", builds: &[Build::Std, Build::Plain], kind: Kind::Random { quick: 3_000, thorough: 200_000, max_words: 16 }, run: run_clamping },
             SubCheck { name: "xen_logical_chain", builds: &[Build::Xen], kind: Kind::Random { quick: 3_000, thorough: 150_000, max_words: 96 }, run: run_logical },
         ],
     }
